@@ -17,10 +17,17 @@ SRC = "chiritori/src"
 ENV = dict(os.environ, CARGO_NET_OFFLINE="true", CARGO_TARGET_DIR=os.path.join(MUT, "target"))
 
 def sh(cmd, cwd=None, timeout=None, env=ENV, inp=None):
+    import signal
+    p = subprocess.Popen(cmd, cwd=cwd, env=env, stdout=subprocess.PIPE, stderr=subprocess.STDOUT, start_new_session=True)
     try:
-        p = subprocess.run(cmd, cwd=cwd, env=env, stdout=subprocess.PIPE, stderr=subprocess.STDOUT, timeout=timeout, input=inp)
-        return p.returncode, p.stdout
+        out, _ = p.communicate(timeout=timeout)
+        return p.returncode, out
     except subprocess.TimeoutExpired:
+        try:
+            os.killpg(p.pid, signal.SIGKILL)   # the hanging test binary is a grandchild
+        except ProcessLookupError:
+            pass
+        p.wait()
         return 124, b"timeout"
 
 RULES = [
@@ -140,9 +147,11 @@ def main():
             if rc != 0:
                 rec["status"] = "does-not-compile"
             else:
-                rc, o = sh(["cargo", "test", "--offline", "-p", "chiritori", "--lib"], cwd=os.path.join(MUT, "repo"), timeout=300,
+                rc, o = sh(["cargo", "test", "--offline", "-p", "chiritori", "--lib"], cwd=os.path.join(MUT, "repo"), timeout=75,
                            env=dict(ENV, CARGO_TARGET_DIR=os.path.join(MUT, "target-test")))
-                if rc != 0:
+                if rc == 124:
+                    rec["status"] = "killed-by-tests(hang)"
+                elif rc != 0:
                     rec["status"] = "killed-by-tests"
                 else:
                     diff = run_all(a.jobs, "mut")
@@ -163,7 +172,7 @@ def run_all(jobs, tag):
         procs.append((subprocess.Popen([os.path.join(MUT, "target", "debug", "verif-harness")], stdin=open(part), stdout=open(outp, "w"),
                                        stderr=subprocess.DEVNULL), i))
     bad = 0
-    deadline = time.time() + 240
+    deadline = time.time() + 120
     for p, i in procs:
         try:
             p.wait(timeout=max(1, deadline - time.time()))
